@@ -185,12 +185,12 @@ func runC18(c *Ctx, pr *PropertyRun) {
 	}
 	ad.RequireRole("handler")
 
-	c18Upload(c, pr)
+	c18Upload(c, pr, "C18")
 }
 
-func c18Upload(c *Ctx, pr *PropertyRun) {
+func c18Upload(c *Ctx, pr *PropertyRun, prop string) {
 	p := c.P
-	r := NewRule("C18", "C18.upload", "the upload protocol: only go statement of the library, buffered done channel, exactly one send per goroutine path, no loop, Close returns the received value (E4 + E7)")
+	r := NewRule(prop, prop+".upload", "the upload protocol: only go statement of the library, buffered done channel, exactly one send per goroutine path, no loop, Close returns the received value (E4 + E7)")
 	pr.Rules = append(pr.Rules, r)
 	create := p.MustFunc(r, pkgWebdav, "(*Client).Create")
 	closeFn := p.MustFunc(r, pkgWebdav, "(*fileWriter).Close")
